@@ -539,6 +539,30 @@ func (prop) Generate(rng *rand.Rand, tier string) []corr.Case {
 	for i := 0; i < nVC; i++ {
 		cases = append(cases, genChainVChange(rng, 1+rng.Intn(50)))
 	}
+	// generated blocks into which the application inserts several assets, handed over in non-module order
+	cases = append(cases, corr.Case{Tag: "chain-assets", Ops: []string{
+		"reset chain nv=4 own=2 seed=9 maxsize=15360",
+		"forge 1 - as=2", "ext 2", "ext 3", "forge 0 - as=4", "forge 1 - as=1", "info 1",
+	}})
+	for i := 0; i < nVC/6; i++ {
+		g := &chainGen{rng: rng, nv: 4, own: 1 + rng.Intn(3), maxSize: 15 * 1024}
+		g.reset(1 + rng.Intn(50))
+		n := 4 + rng.Intn(8)
+		for cursor := 1; cursor <= n; cursor++ {
+			v := cursor % g.nv
+			if v < g.own {
+				op := fmt.Sprintf("forge %d %s", v, g.pool())
+				if rng.Intn(3) != 0 {
+					op += fmt.Sprintf(" as=%d", 1+rng.Intn(4))
+				}
+				g.ops = append(g.ops, op)
+				g.height++
+			} else {
+				g.ext(v)
+			}
+		}
+		cases = append(cases, corr.Case{Ops: g.ops, Tag: "chain-assets"})
+	}
 	return cases
 }
 
@@ -908,10 +932,23 @@ func (x *runner) parseVChange(tok string) (*node.ValidatorChange, bool) {
 
 func (x *runner) opForge(w []string) string {
 	var vc *node.ValidatorChange
+	var extraAssets []*blockchain.BlockAsset
 	if len(w) == 4 && w[0] == "forge" {
-		var ok bool
-		if vc, ok = x.parseVChange(w[3]); !ok {
-			return "bad-op"
+		if strings.HasPrefix(w[3], "as=") {
+			// the application inserts k further assets, handed over in an order that is NOT the module order
+			k, err := strconv.Atoi(w[3][3:])
+			if err != nil || k < 1 || k > 4 {
+				return "bad-op"
+			}
+			names := []string{"random", "auth", "zeta", "dex"}[:k]
+			for j, nm := range names {
+				extraAssets = append(extraAssets, &blockchain.BlockAsset{Module: nm, Data: bytes.Repeat([]byte{byte(j + 1)}, 3+5*j)})
+			}
+		} else {
+			var ok bool
+			if vc, ok = x.parseVChange(w[3]); !ok {
+				return "bad-op"
+			}
 		}
 		w = w[:3]
 	}
@@ -935,11 +972,15 @@ func (x *runner) opForge(w []string) string {
 		return "no-slot"
 	}
 	// reference block of the harness' own builder for the same slot and generator (differential check)
-	refOpts := node.BlockOpts{Generator: v, MaxHeightGenerated: node.U32(x.maxGen[i]), ValidatorChange: vc}
+	refOpts := node.BlockOpts{Generator: v, MaxHeightGenerated: node.U32(x.maxGen[i]), ValidatorChange: vc, Assets: extraAssets}
 	ref, _ := r.n.BuildBlock(refOpts)
 	// what the application inserts into the block: the script that makes it answer
 	// AfterTransactionsExecute of this block with the validator change
 	r.abi.setInsertAssets(nil)
+	if extraAssets != nil {
+		r.abi.setInsertAssets(extraAssets)
+		defer r.abi.setInsertAssets(nil)
+	}
 	if vc != nil {
 		asset, err := refOpts.ScriptAsset()
 		if err != nil || asset == nil {
